@@ -45,6 +45,12 @@ RECURSIVE FuseAll(_, _)
 FuseAll(g, grps) == IF grps = {} THEN g
                     ELSE LET grp == CHOOSE x \in grps : TRUE IN FuseAll(FuseGroup(g, grp, Min(grp)), grps \ {grp})
 FuseGadgets(g) == FuseAll(g, GadgetGroups(g))
+\* the code keeps the first member of a group in the backend's enumeration order: ANY member
+RECURSIVE FuseAllSet(_, _)
+FuseAllSet(S, grps) == IF grps = {} THEN S
+                       ELSE LET grp == CHOOSE x \in grps : TRUE IN
+                            FuseAllSet(UNION {{FuseGroup(h, grp, keep) : keep \in grp} : h \in S}, grps \ {grp})
+FuseGadgetsSet(g) == FuseAllSet({g}, GadgetGroups(g))
 
 \* ---------- remove_gadget_pi (simplify.rs:332-350) ----------
 PiGadgetLeaves(g) == {v \in g.vs : g.ty[v] = "Z" /\ Deg(g, v) = 1
@@ -55,6 +61,10 @@ RemoveGadgetPi(g) ==
   LET hubs == {GadgetHub(g, v) : v \in PiGadgetLeaves(g)}
       pick == {Min({v \in PiGadgetLeaves(g) : GadgetHub(g, v) = h}) : h \in hubs}
   IN FoldSet(LAMBDA v, acc : ApplyPiCopy(acc, v).g, g, pick)
+\* the code keeps, per hub, the leaf that a hash map happens to retain: ANY one leaf per hub
+PiPicks(g) == LET hubs == {GadgetHub(g, v) : v \in PiGadgetLeaves(g)} IN
+              {pick \in SUBSET PiGadgetLeaves(g) : \A h \in hubs : Cardinality({v \in pick : GadgetHub(g, v) = h}) = 1}
+RemoveGadgetPiSet(g) == {FoldSet(LAMBDA v, acc : ApplyPiCopy(acc, v).g, g, pick) : pick \in PiPicks(g)}
 
 \* ---------- strategies ----------
 StratRules(s) ==
@@ -70,7 +80,7 @@ SimpSteps(s, g) ==
   \cup
   UNION {{StepRec(R, g, p) : p \in {p \in g.vs \X g.vs : Check(R, g, p)}} : R \in StratRules(s) \cap Rules2}
   \cup (IF HasX(g) THEN {[g |-> XToZ(g), panic |-> FALSE, what |-> <<"x_to_z">>]} ELSE {})
-  \cup (IF s = "full" /\ CanFuseGadgets(g) THEN {[g |-> FuseGadgets(g), panic |-> FALSE, what |-> <<"fuse_gadgets">>]} ELSE {})
-  \cup (IF s = "full" /\ CanRemoveGadgetPi(g) THEN {[g |-> RemoveGadgetPi(g), panic |-> FALSE, what |-> <<"remove_gadget_pi">>]} ELSE {})
+  \cup (IF s = "full" /\ CanFuseGadgets(g) THEN {[g |-> h, panic |-> FALSE, what |-> <<"fuse_gadgets">>] : h \in FuseGadgetsSet(g)} ELSE {})
+  \cup (IF s = "full" /\ CanRemoveGadgetPi(g) THEN {[g |-> h, panic |-> FALSE, what |-> <<"remove_gadget_pi">>] : h \in RemoveGadgetPiSet(g)} ELSE {})
 Quiescent(s, g) == SimpSteps(s, g) = {}
 =============================================================================
